@@ -9,7 +9,8 @@ CONSTANTS
   BatchSizes = {1}
   PerIns = 0
   PerFl = 0
-  LockScope = "code"
+  LockScope = "fix"
+  SigMode = "none"
   Impl = TRUE
 INVARIANT ModelInv
 CONSTRAINT Mark
